@@ -259,3 +259,18 @@ def units(tier):
     for n in ((1, 2) if tier == 'quick' else (1, 2, 3)):
         us.append(Unit('C07/K/SLOPE/prox_vec[n=%d]' % n, u_prox_slope, dict(n=n), wall_s=120))
     return us
+
+MANIFEST = dict(
+    claimed=True,
+    level_text=("Bounded symbolic model checking of every proximal operator: one call of the real prox code with all "
+                "numeric arguments symbolic; z3 decides on every control path that no competitor improves the prox "
+                "objective rebuilt from the penalty's real value() (1-D: literal forall-u query; blocks of dimension <= 2 "
+                "and SLOPE: first-order optimality in every feasible direction via dual numbers + convexity lemma; radial "
+                "non-convex blocks: every competitor on the ray through x). Unit tests only sample points; thresholds and "
+                "x = 0 are single branches here."),
+    level_note=("Exact real arithmetic, not IEEE. alpha>0, step>0, weights>=0 (zero included); MCP step*weight<gamma; SCAD "
+                "gamma>2 and step<gamma-1 with gamma from a small catalogue (shrink rule); group/row dimension <= 2; SLOPE "
+                "n<=2 (3 thorough); block MCP/SCAD directions from a catalogue of unit vectors. Lemmas trusted: convexity => "
+                "first-order optimality is global; radial reduction for penalties of the row norm. L0.5, L2/3, log-sum "
+                "prox and the experimental Pinball/SqrtQuadratic prox are not yet covered."),
+)
